@@ -1898,7 +1898,7 @@ func funcLocaltime(v any) any {
 }
 
 func epochToArray(v float64, loc *time.Location) []any {
-	t := time.Unix(int64(v), int64((v-math.Floor(v))*1e9)).In(loc)
+	t := time.Unix(int64(math.Floor(v)), int64((v-math.Floor(v))*1e9)).In(loc)
 	return []any{
 		t.Year(),
 		int(t.Month()) - 1,
@@ -1997,7 +1997,7 @@ func arrayToTime(a []any, loc *time.Location) (time.Time, error) {
 		}
 		if i == 5 {
 			if v, ok := toFloat(a[i]); ok {
-				*p = int(v)
+				*p = int(math.Floor(v))
 				nanosecond = int((v - math.Floor(v)) * 1e9)
 			} else {
 				return t, &timeArrayError{}
